@@ -26,7 +26,17 @@ func genC02() *rapid.Generator[Case] {
 			maxSteps = 60
 		}
 		n := rapid.IntRange(1, maxSteps).Draw(t, "nsteps")
+		var clk *clockGen
+		if rapid.IntRange(0, 9).Draw(t, "clocked") < 3 {
+			// virtual clock: records expire while the case runs, reads happen at, just before and just after expiry instants
+			clk = &clockGen{Now: clockBase + int64(rapid.IntRange(0, 1000).Draw(t, "clock0"))}
+			c.Steps = append(c.Steps, Step{K: "clock", T: clk.Now})
+		}
 		for i := 0; i < n; i++ {
+			if clk != nil && rapid.IntRange(0, 7).Draw(t, "isclock") == 3 {
+				c.Steps = append(c.Steps, clk.step(t))
+				continue
+			}
 			if rapid.IntRange(0, 99).Draw(t, "isreopen") < 20 {
 				c.Steps = append(c.Steps, Step{K: "reopen"})
 				continue
@@ -34,7 +44,7 @@ func genC02() *rapid.Generator[Case] {
 			nops := rapid.IntRange(1, shape.MaxOps).Draw(t, "nops")
 			st := Step{K: "tx", Managed: rapid.Bool().Draw(t, "managed")}
 			for j := 0; j < nops; j++ {
-				st.Ops = append(st.Ops, genKVWrite(buckets, keys, true).Draw(t, "op"))
+				st.Ops = append(st.Ops, genKVWriteClocked(buckets, keys, true, clk).Draw(t, "op"))
 			}
 			c.Steps = append(c.Steps, st)
 		}
